@@ -26,7 +26,7 @@ THEOREMS = ["Ymq.C09.reduce64_inv", "Ymq.C09.step_gcd", "Ymq.C09.gcd_internal_sp
             "Ymq.C09.no_panic_ext", "Ymq.C09.no_panic_ext_any_width", "Ymq.C09.no_panic_ext_domain_sharp",
             "Ymq.C09.inv_mod_no_panic", "Ymq.C09.zmodn_inv_spec", "Ymq.C09.zmodn_gcd_spec",
             "Ymq.C09.reduce64_first_row", "Ymq.C09.reduce64_row_product", "Ymq.C09.no_panic_ext_wide",
-            "Ymq.C09.no_panic_ext_threshold", "Ymq.C09.inv_mod_total"]
+            "Ymq.C09.no_panic_ext_threshold", "Ymq.C09.inv_mod_total", "Ymq.C09.egcd_i64_half"]
 PROFILES = ["release", "chk"]
 TIMEOUT = 20.0
 W = 1 << 64
@@ -48,7 +48,9 @@ MODELLED = ["arith_gcd::{reduce64, top64, mulword, dot_product} word-exact (u64/
             "explicit range checks (the width K of the cofactors is a parameter of the model, the code is K = N), both "
             "fallback branches, the Lehmer step, the <64-bit exit through num_integer::extended_gcd (modelled step by step "
             "on i64)",
-            "arith_gcd::{big_gcd, inv_mod}; ZmodN::{inv,gcd} as compositions (driver only)"]
+            "arith_gcd::{big_gcd, inv_mod}; ZmodN::{inv,gcd} as compositions (driver only)",
+            "num_integer::Integer::extended_gcd on i64 (step by step, every i64 overflow a panic site), compared on its own "
+            "(gcd_egcd64) and judged for the half-size cofactor bound the cofactor-width proof uses"]
 UNMODELLED = ["bnum whole-integer operators (/ % * + - << comparisons, bits, cast_from, Display/FromStr) are modelled as "
               "Nat/Int arithmetic with a range check where bnum panics on overflow",
               "num_integer::Integer::gcd on i64 (binary gcd) is modelled as Nat.gcd",
@@ -397,6 +399,49 @@ def wide_cases(rng, tier):
                 yield from pair_cases(N, a, b, "wide-" + sh, full=False)
 
 
+def egcd_cases(rng, n):
+    """num_integer's extended_gcd on i64 (the <64-bit exit): the caller's domain 0 <= y <= x < 2^63 (also x < y, zeros),
+    consecutive continuants (longest quotient sequences, cofactors of extreme size), last quotient 2, equal operands,
+    multiples; negative / extreme operands only against the model in the checked profile"""
+    top = (1 << 63) - 1
+    edge = [0, 1, 2, 3, (1 << 31) - 1, 1 << 31, (1 << 32) + 1, (1 << 62), top - 1, top]
+    for x in edge:
+        for y in edge:
+            yield Case(f"gcd_egcd64 {x} {y}")
+    for i in range(n):
+        c = i % 6
+        if c == 0:
+            x, y = rng.getrandbits(63), rng.getrandbits(rng.randrange(1, 64))
+        elif c == 1:
+            a, b = continuant(rng, 63, rng.randrange(5))
+            while a > top:
+                a, b = b, a % b if b else 0
+            x, y = a, b
+        elif c == 2:    # last quotient exactly 2: |ey| = (x/g - p)/2 is as large as it can be
+            g = rng.choice([1, 1, 3, rng.getrandbits(10) + 1])
+            b = rng.getrandbits(rng.randrange(1, 30)) + 1
+            a = 2 * b + rng.choice([0, 1])
+            while a * g * 3 < top and rng.random() < 0.9:
+                a, b = rng.choice([1, 1, 2, 3, rng.getrandbits(6) + 1]) * a + b, a
+            x, y = a * g, b * g
+        elif c == 3:
+            x = rng.getrandbits(rng.randrange(1, 64))
+            y = x
+        elif c == 4:
+            y = rng.getrandbits(rng.randrange(1, 32)) + 1
+            x = y * rng.randrange(1, max(2, top // y))
+        else:
+            x, y = rng.getrandbits(rng.randrange(1, 64)), rng.getrandbits(63)
+        if x > top or y > top:
+            continue
+        yield Case(f"gcd_egcd64 {x} {y}")
+    lo = -(1 << 63)
+    for x in (lo, lo + 1, -1, -5, 7, top):
+        for y in (lo, lo + 1, -1, -3, 0, 12, top):
+            if x < 0 or y < 0:
+                yield Case(f"gcd_egcd64 {x} {y}", o=False, profiles=["chk"], tag="egcd-neg")
+
+
 def cases(tier, rng, extended=False):
     out = list(boundary_cases(_fork(rng, "C09-boundary"), tier))
     out.extend(wide_cases(_fork(rng, "C09-wide"), tier))
@@ -425,6 +470,7 @@ def cases(tier, rng, extended=False):
         a, b = make_pair(rng, sh, wa, wb, 63)
         out.extend(pair_cases(rng.choice([4, 8, 16]), a, b, "small64"))
     out.extend(word_cases(rng, 2500 * reps))
+    out.extend(egcd_cases(_fork(rng, "C09-egcd"), 1500 * reps))
     out.extend(zn_cases(rng, 200 * reps))
     # operands wider than the supported range (N*64-12 bits and above): the cofactor arithmetic may overflow;
     # only the checked profile has a defined answer (panic or a value), compared with the model, no oracle
@@ -523,6 +569,19 @@ def oracle(case, ans):
             if max(u, v) > max(x, y):
                 return "reduced vector larger than the input"
             return None
+        if op == "gcd_egcd64":
+            x, y = _ints(a)
+            g, ex, ey = _ints(t)
+            if g != math.gcd(x, y):
+                return "g is not gcd(x,y)"
+            if ex * x + ey * y != g:
+                return "ex*x + ey*y != g"
+            if 0 < y <= x:      # the situation of gcd_internal: half-size cofactors (egcdI64_total2)
+                if 2 * abs(ex) > y:
+                    return "2|ex| > y"
+                if not (2 * abs(ey) <= x or (x == y and abs(ey) <= 1)):
+                    return "2|ey| > x"
+            return None
         if op == "gcd_top64":
             digs = _ints(a[0].split(","))
             bits = int(a[1])
@@ -580,6 +639,15 @@ def klass(case, ans):
             size = "id" if t == ["1", "0", "0", "1"] else ("big" if m >= 1 << 30 else "mid" if m >= 1 << 16 else "small")
             return f"{op}/{pre}/{size}"
         return f"{op}/{pre}/{ans}"
+    if op == "gcd_egcd64":
+        x, y = _ints(case.args)
+        t = ans.split()
+        if len(t) != 3:
+            return f"{op}/{ans}"
+        dom = "neg" if x < 0 or y < 0 else "zero" if x == 0 or y == 0 else "x<y" if x < y else "x=y" if x == y else "dom"
+        ey = abs(int(t[2]))
+        tight = "/half" if dom == "dom" and 5 * ey >= 2 * x else ""
+        return f"{op}/{dom}{tight}"
     if op in ("gcd_mulword", "gcd_top64", "gcd_dot"):
         return op + ("/panic" if ans == "panic" else "")
     if op == "gcd_zn_inv":
